@@ -27,8 +27,11 @@ RULE = ('(1) every compiled regular expression of the source is re-extracted and
         'polynomial work bound are re-checked; (2) engine correspondence: for every extracted regex, on strings built from its own '
         'alphabet (characters of its literals and class boundaries, plus neutral ones), CPython re.match(s, i).end() must equal the '
         'head of the Lean engine\'s runs; (3) pump families: truncated / unterminated prefixes of quoted values, value lists, '
-        'comments, escapes, whitespace runs, nested brackets, each repeated n times for doubling n: the real compile() time and '
+        'comments, escapes, whitespace runs, nested brackets, each repeated n times for doubling n, and custom-selector tables whose definitions refer to one another two or three times per level (every definition must be compiled once: sub-parse count <= 4 x entries): the real compile() time and '
         'the model\'s work count must grow polynomially (log-log slope below 3.2, and no single compile above the time budget). '
+        '(4) when the StarSafe obligation fails (always in the thorough tier): the model names the expressions it rejects and a '
+        '(prefix, unit) whose number of backtracking paths grows geometrically with the repetition count; the real compiled '
+        'expression and compile() are then timed on that input for growing n. '
         'Non-trivial (2) = the regex matches a non-empty prefix.')
 
 PUMPS = {
@@ -73,6 +76,74 @@ def slope(ns, ys):
     pts = [(math.log(n), math.log(max(y, 1e-7))) for n, y in zip(ns, ys)]
     (x0, y0), (x1, y1) = pts[-3], pts[-1]
     return (y1 - y0) / (x1 - x0)
+
+
+PREFIXES = ['', '[', '[a', '[a=', '[a="', "[a='", ':', ':is(', ':is(a', ':lang(', ':lang(a', ':nth-child(', ':nth-child(2n', '#', '.', 'a', 'a ',
+            ':-soup-contains(', ':-soup-contains("a"', ':dir(', '/*', '"', "'", '\\', 'a,', 'a >', '1', '-']
+
+
+def ambiguity_search(pats, budget, deadline):
+    """Model-guided search for a concrete slow input when the StarSafe obligation fails: ask the model which
+    regenerated expressions it rejects, find (prefix, unit) for which the model's number of backtracking paths on
+    prefix + unit*n grows geometrically in n, then time the REAL compiled expression (and compile()) on growing n."""
+    verdicts = driver.run([f'(18 {enc.s(origin)})' for _, origin, _ in pats])
+    unsafe = [(origin, p) for (_, origin, p), v in zip(pats, verdicts) if enc.parse_sx(v) != [1, 1] and enc.parse_sx(v) != [1, 0]]
+    found, tried = [], 0
+    for origin, p in unsafe:
+        if len(found) >= 3 or time.time() > deadline:
+            break
+        a1 = alphabet(p)
+        a2 = ([c for c in a1 if not c.isalnum()] + ['a'])[:16]
+        units = a1 + [x + y for x in a2 for y in a2 if x != y]
+        reqs = [(pre, u, n) for pre in PREFIXES for u in units for n in (4, 8, 12)]
+        resp = driver.run([f'(15 {enc.s(origin)} {enc.s(pre + u * n)} 0)' for pre, u, n in reqs])
+        tried += len(reqs)
+        paths = {}
+        for (pre, u, n), r in zip(reqs, resp):
+            r_ = enc.parse_sx(r)
+            paths[(pre, u, n)] = r_[1] if isinstance(r_, list) and len(r_) == 3 else 0
+        cands = []
+        for pre in PREFIXES:
+            for u in units:
+                p4, p8, p12 = paths[(pre, u, 4)], paths[(pre, u, 8)], paths[(pre, u, 12)]
+                if p4 > 0 and p8 >= 8 * p4 and p12 * p4 >= 0.9 * p8 * p8:
+                    cands.append((p12, pre, u))
+        cands.sort(reverse=True)
+        for _, pre, u in cands[:3]:
+            hit = None
+            for tail in ('\x00', '!', ''):
+                n = 10
+                while n <= 64 and time.time() < deadline:
+                    subj = pre + u * n + tail
+                    t0 = time.perf_counter()
+                    p.match(subj)
+                    dt = time.perf_counter() - t0
+                    if dt > budget:
+                        hit = {'regex': origin, 'subject': subj, 'length': len(subj), 'seconds': round(dt, 2),
+                               'model_paths_n4_n8_n12': [paths[(pre, u, 4)], paths[(pre, u, 8)], paths[(pre, u, 12)]]}
+                        break
+                    if dt < 0.02 and n >= 40:
+                        break
+                    n += 2
+                if hit:
+                    break
+            if hit:
+                # the same text through compile(), embedded as it is and inside a few contexts
+                for ctx in ('%s', 'a%sb', ':is(a%s', '[a%s=', 'div%sp'):
+                    text = ctx % (u * (len(hit['subject']) // max(len(u), 1)))
+                    t0 = time.perf_counter()
+                    try:
+                        cp.CSSParser(hit['subject'] if ctx == '%s' else text).process_selectors()
+                    except Exception:
+                        pass
+                    dt = time.perf_counter() - t0
+                    if dt > budget:
+                        hit['compile_input'] = hit['subject'] if ctx == '%s' else text
+                        hit['compile_seconds'] = round(dt, 2)
+                        break
+                found.append(hit)
+                break
+    return found, [o for o, _ in unsafe], tried
 
 
 def run(chk):
@@ -129,6 +200,40 @@ def run(chk):
             growth[fam] = round(slope(sizes[:len(ts)], ts), 2)
             if growth[fam] > 3.2 and ts[-1] > 0.05:
                 slow.append({'family': fam, 'loglog_slope': growth[fam], 'times': [round(t, 4) for t in ts], 'pattern_prefix': f(8)})
+    # (3b) custom selector tables whose definitions refer to one another: each definition is compiled once
+    parses = {}
+    orig_ps = cp.CSSParser.process_selectors
+    counter = [0]
+
+    def counting(self, *a, **k):
+        counter[0] += 1
+        return orig_ps(self, *a, **k)
+    for fam, width in (('custom_chain2', 2), ('custom_chain3', 3), ('custom_fan', 0)):
+        ts = []
+        for n in ([4, 8, 12, 16, 20, 24] if quick else [4, 8, 12, 16, 20, 24, 32, 48]):
+            if width:
+                table = {f':--s{i}': f':--s{i + 1}' * width for i in range(n)}
+                table[f':--s{n}'] = 'p'
+            else:
+                table = {':--s0': ':--s1' * n + ', ' + ', '.join([':--s1'] * n), ':--s1': ':is(:--s2, :--s2) :--s2', ':--s2': 'p'}
+            total = sum(len(k) + len(v) for k, v in table.items())
+            counter[0] = 0
+            cp.CSSParser.process_selectors = counting
+            t0 = time.perf_counter()
+            try:
+                sv.compile(':--s0' + ' ' * n, custom=table)        # trailing blanks: a fresh cache key for every run
+            except (sv.SelectorSyntaxError, NotImplementedError, RecursionError):
+                pass
+            finally:
+                cp.CSSParser.process_selectors = orig_ps
+            dt = time.perf_counter() - t0
+            ts.append(dt)
+            parses.setdefault(fam, []).append(counter[0])
+            if dt > budget or counter[0] > 4 * (len(table) + 1):
+                slow.append({'family': fam, 'n': n, 'seconds': round(dt, 3), 'sub_parses': counter[0], 'custom_entries': len(table),
+                             'total_text_length': total, 'pattern': ':--s0' + ' ' * n, 'custom': table})
+                break
+        growth[fam] = [round(t, 4) for t in ts]
     from soupsieve import css_match as cm
     for fam, f in DOC_PUMPS.items():
         ts = []
@@ -163,9 +268,16 @@ def run(chk):
         for fam, ws in work_growth.items():
             if None not in ws and ws[0] > 0 and ws[2] / max(ws[1], 1) > 9:
                 slow.append({'family': 'model-work:' + fam, 'work': ws})
+    # (4) when the obligation fails (or in the thorough tier): model-guided search for a concrete slow input
+    unsafe_names = []
+    if driver_ok and (not proof_ok or not quick) and not slow:
+        amb, unsafe_names, tried = ambiguity_search(pats, budget, time.time() + (240 if quick else 900))
+        chk.coverage['ambiguity_search'] = {'rejected_by_model': unsafe_names, 'model_requests': tried, 'slow_inputs_found': len(amb)}
+        for a in amb:
+            slow.append({'family': 'ambiguity:' + a['regex'], **a})
     chk.samples = [{'regex': exp[0][0], 'subject': exp[0][1], 'py_end': exp[0][3]}, {'pump': PUMPS['dq'](8)}, {'growth': growth}]
     chk.coverage.update({'regexes': len(pats), 'engine_cases': len(lines), 'engine_mismatches': len(corr_bad), 'pump_families': len(PUMPS) + len(DOC_PUMPS),
-                         'pump_sizes': sizes, 'loglog_slopes': growth, 'model_work': work_growth, 'slow_inputs': len(slow)})
+                         'pump_sizes': sizes, 'custom_table_sub_parses': parses, 'loglog_slopes': growth, 'model_work': work_growth, 'slow_inputs': len(slow)})
     for i, b in enumerate(slow[:5]):
         chk.violation(f'slow{i}', {'what': 'super-polynomial or over-budget parsing time', **b}, concrete=True)
     for i, b in enumerate(corr_bad[:3]):
@@ -184,6 +296,28 @@ def replay(chk, path):
         t0 = time.perf_counter()
         try:
             cp.CSSParser(PUMPS[data['family']](n)).process_selectors()
+        except Exception:
+            pass
+        dt = time.perf_counter() - t0
+        print(json.dumps({'seconds': dt}))
+        if dt > 2.0:
+            print(f'VIOLATION property={PID} replay={path}')
+            return 1
+    if 'regex' in data and 'subject' in data:
+        pats, _ = gen_regexes.collect()
+        p = next((p for _, origin, p in pats if origin == data['regex']), None)
+        if p is not None:
+            t0 = time.perf_counter()
+            p.match(data['subject'])
+            dt = time.perf_counter() - t0
+            print(json.dumps({'regex_seconds': dt}))
+            if dt > 2.0:
+                print(f'VIOLATION property={PID} replay={path}')
+                return 1
+    if 'custom' in data and 'pattern' in data:
+        t0 = time.perf_counter()
+        try:
+            sv.compile(data['pattern'] + ' ', custom=data['custom'])
         except Exception:
             pass
         dt = time.perf_counter() - t0
